@@ -89,6 +89,7 @@ type Ctx struct {
 	frameAllowedWholeField map[string]bool
 	entryCut    int
 	entryAlloc  T
+	alloc0      T // allocation counter at function entry
 }
 
 type writeRec struct {
